@@ -1066,6 +1066,9 @@ func (s *Sim) genEvmTx(deploy bool) *TxSpec {
 		t.Amount = fmt.Sprint(100 + r.Intn(900))
 		t.Gas = uint64(100000 + r.Intn(400000))
 		t.Note = "evm-transfer-to-contract"
+		if r.Intn(4) == 0 { // a transfer of nothing still runs the receiver's code
+			t.Amount, t.Note = "0", "evm-transfer-of-zero-to-contract"
+		}
 		if r.Intn(4) == 0 { // enough for the governance minimum, not for the EVM's intrinsic gas
 			t.Gas = s.params.MinTrxGas + uint64(r.Intn(50))
 			t.Note = "evm-transfer-to-contract-low-gas"
